@@ -1131,3 +1131,86 @@ Proof.
   - clear. induction vars as [|[k s] r IH]; [reflexivity|]. cbn [map fst]. rewrite col_of_name, IH. reflexivity.
   - split; [assumption|]. intros k s H T. apply in_map_iff. exists (k, s). split; [apply col_of_typed; assumption|assumption].
 Qed.
+
+(* ------------------------------------------------------------------ from_dataframe of ANY table: what the new model holds *)
+Definition source_cells (c : mclass) (n : nat) (cols : list pcolumn) (k : string) : list cell :=
+  match find_col k cols with Some col => col_values col | None => repeat (cdefault c) n end.
+
+Lemma init_vars_char c n cols names : forall vars,
+  init_vars c n cols names = TOk vars ->
+  map fst vars = names /\
+  forall k s, In (k, s) vars -> sdt s = cdtype c /\ cast_all (cdtype c) (source_cells c n cols k) = TOk (scells s).
+Proof.
+  induction names as [|k r IH]; intros vars H.
+  - cbn [init_vars] in H. inversion H; subst. split; [reflexivity|intros k s []].
+  - cbn [init_vars] in H. destruct (mem_s k ["status"; "iterations"]); [discriminate|].
+    fold (source_cells c n cols k) in H.
+    destruct (cast_all (cdtype c) (source_cells c n cols k)) as [cs|e|] eqn:C; cbn [tbind] in H; try discriminate.
+    destruct (init_vars c n cols r) as [rest|e|] eqn:R; cbn [tbind] in H; try discriminate.
+    inversion H; subst. destruct (IH rest eq_refl) as [I1 I2]. split.
+    + cbn [map fst]. rewrite I1. reflexivity.
+    + intros k' s [E|Hin]; [inversion E; subst; split; [reflexivity|assumption]|apply I2; assumption].
+Qed.
+
+Lemma from_table_char c t m :
+  from_table c t = TOk m ->
+  fspan m = span_of_index (tindex t) /\ fnames m = cnames c /\ map fst (fvars m) = cnames c /\
+  NoDup (cnames c) /\
+  (forall k s, In (k, s) (fvars m) ->
+     sdt s = cdtype c /\
+     cast_all (cdtype c) (source_cells c (length (ilabels (tindex t))) (tcols t) k) = TOk (scells s)) /\
+  fstatus m = mkSeries NStr (repeat (CStr "-") (length (ilabels (tindex t)))) /\
+  fiters m = mkSeries NInt (repeat (CInt (-1)) (length (ilabels (tindex t)))) /\
+  (cstrict c = true -> forall col, In col (tcols t) -> In (pcname col) (cnames c)).
+Proof.
+  unfold from_table. destruct (existsb _ (tcols t)); [discriminate|].
+  destruct (has_dup (cnames c)) eqn:D; [discriminate|].
+  destruct (cstrict c && existsb (fun col => negb (mem_s (pcname col) (cnames c))) (tcols t)) eqn:S; [discriminate|].
+  destruct (init_vars c (length (ilabels (tindex t))) (tcols t) (cnames c)) as [vars|e|] eqn:V; cbn [tbind]; try discriminate.
+  intros H. inversion H; subst; clear H. cbn [fspan fnames fvars fstatus fiters].
+  destruct (init_vars_char _ _ _ _ _ V) as [I1 I2].
+  repeat split; try assumption; try reflexivity.
+  - clear -D. induction (cnames c) as [|a l IH]; [constructor|]. cbn [has_dup] in D. apply orb_false_iff in D as [D1 D2].
+    constructor; [apply mem_s_false; assumption|apply IH; assumption].
+  - apply (I2 k s H).
+  - apply (I2 k s H).
+  - intros St col Hc. rewrite St in S. cbn [andb] in S.
+    assert (X := proj1 (existsb_false_iff _ _) S col Hc). apply negb_false_iff in X. apply mem_s_In. assumption.
+Qed.
+
+Definition from_exn (e : exn) : bool :=
+  match e with DuplicateNameError | InitialisationError | ValueError | TypeError => true | _ => false end.
+
+Lemma np_cast_errors d c e : np_cast d c = TErr e -> e = ValueError \/ e = TypeError.
+Proof.
+  destruct d, c; cbn [np_cast]; intros H; try discriminate;
+    repeat match type of H with
+           | context [if ?x then _ else _] => destruct x
+           | context [match ?x with _ => _ end] => destruct x
+           end; inversion H; auto.
+Qed.
+
+Lemma cast_all_errors d cs e : cast_all d cs = TErr e -> e = ValueError \/ e = TypeError.
+Proof.
+  induction cs as [|c r IH]; cbn [cast_all]; [discriminate|].
+  destruct (np_cast d c) as [c'|e1|] eqn:C; cbn [tbind]; [| |discriminate].
+  - destruct (cast_all d r) as [r'|e2|]; cbn [tbind]; [discriminate| |discriminate].
+    intros H. inversion H; subst. apply IH. reflexivity.
+  - intros H. inversion H; subst. apply (np_cast_errors _ _ _ C).
+Qed.
+
+Lemma from_table_errors c t e : from_table c t = TErr e -> from_exn e = true.
+Proof.
+  unfold from_table. destruct (existsb _ (tcols t)); [discriminate|].
+  destruct (has_dup (cnames c)); [intros H; inversion H; reflexivity|].
+  destruct (cstrict c && _); [intros H; inversion H; reflexivity|].
+  generalize (cnames c) at 1. intros names.
+  destruct (init_vars c (length (ilabels (tindex t))) (tcols t) names) as [vars|e1|] eqn:V; cbn [tbind]; try discriminate.
+  intros H. inversion H; subst. clear H. revert e V.
+  induction names as [|k r IH]; intros e V; cbn [init_vars] in V; [discriminate|].
+  destruct (mem_s k ["status"; "iterations"]); [inversion V; reflexivity|].
+  match type of V with tbind ?x _ = _ => destruct x as [cs|e2|] eqn:C end; cbn [tbind] in V; try discriminate.
+  - destruct (init_vars c (length (ilabels (tindex t))) (tcols t) r) as [rest|e3|] eqn:R; cbn [tbind] in V; try discriminate.
+    inversion V; subst. apply IH. reflexivity.
+  - inversion V; subst. destruct (cast_all_errors _ _ _ C) as [-> | ->]; reflexivity.
+Qed.
